@@ -108,6 +108,7 @@ type Run struct {
 	cuts         map[string]bool
 	mutexes      map[*Slot]*mutexState
 	conds        map[*Slot]*condState
+	builders     map[*Slot]*builderState
 	timerBySlot  map[*Slot]*timerEnv
 	clock        int
 	mapOrderOff  bool
